@@ -3,6 +3,7 @@ package sched
 import (
 	"context"
 	"fmt"
+	"runtime"
 	"sort"
 	"strconv"
 	"strings"
@@ -58,12 +59,75 @@ type fakeClock struct {
 	mu     sync.Mutex
 	now    int64
 	timers []*fakeTimer
+	// While gate is non-nil, Synchronize goroutines (held) that read the clock are suspended.
+	// The scheduler reads the clock right before every acquisition of its lock
+	// (bq.enter(bq.clock.Now())), so this keeps a woken-up worker from re-taking the lock
+	// while further calls run to completion: the interleavings in which the reason for a
+	// wake-up is gone again by the time the worker looks.
+	gate    chan struct{}
+	gateSeq int
+	held    map[uint64]int // Synchronize goroutine -> number of holds begun before it started
+}
+
+func goid() uint64 {
+	var buf [64]byte
+	n := runtime.Stack(buf[:], false)
+	f := strings.Fields(string(buf[:n]))
+	id, _ := strconv.ParseUint(f[1], 10, 64)
+	return id
 }
 
 func (c *fakeClock) Now() time.Time {
 	c.mu.Lock()
+	if g := c.gate; g != nil {
+		// only calls that were already in progress when the hold began are suspended
+		if since, ok := c.held[goid()]; ok && since < c.gateSeq {
+			c.mu.Unlock()
+			<-g
+			c.mu.Lock()
+		}
+	}
 	defer c.mu.Unlock()
 	return time.Unix(c.now, 0)
+}
+
+func (c *fakeClock) markHeld() {
+	c.mu.Lock()
+	if c.held == nil {
+		c.held = map[uint64]int{}
+	}
+	c.held[goid()] = c.gateSeq
+	c.mu.Unlock()
+}
+
+func (c *fakeClock) unmarkHeld() {
+	c.mu.Lock()
+	delete(c.held, goid())
+	c.mu.Unlock()
+}
+
+func (c *fakeClock) hold() {
+	c.mu.Lock()
+	if c.gate == nil {
+		c.gate = make(chan struct{})
+		c.gateSeq++
+	}
+	c.mu.Unlock()
+}
+
+func (c *fakeClock) holding() bool {
+	c.mu.Lock()
+	defer c.mu.Unlock()
+	return c.gate != nil
+}
+
+func (c *fakeClock) release() {
+	c.mu.Lock()
+	if c.gate != nil {
+		close(c.gate)
+		c.gate = nil
+	}
+	c.mu.Unlock()
 }
 
 func (c *fakeClock) NewContextWithTimeout(p context.Context, d time.Duration) (context.Context, context.CancelFunc) {
@@ -573,7 +637,9 @@ func (w *world) startSync(pq string, sc int, comps []int, plat int, h, t int, re
 	}
 	go func() {
 		defer w.guard("Synchronize")
+		w.clk.markHeld()
 		r, err := w.bq.Synchronize(ctx, req)
+		w.clk.unmarkHeld()
 		text := ""
 		switch {
 		case err != nil:
